@@ -29,6 +29,22 @@ CC = "compact_calendar"
 PY = "opening_hours_py"
 
 
+# Which trait impls of a workspace type a third-party generic callee can call back
+# (first match wins; no match = every trait impl of the type).
+CALLBACK_TRAITS = [
+    (r"core::fmt::rt::Argument::<'_>::new_display$|ToString::to_string$", {"core::fmt::Display"}),
+    (r"core::fmt::rt::Argument::<'_>::new_debug$", {"core::fmt::Debug"}),
+    (r"core::fmt::rt::Argument::<'_>::new_", {"core::fmt::Display", "core::fmt::Debug", "core::fmt::LowerHex", "core::fmt::UpperHex"}),
+    (r"::try_into$|::into$|::try_from$|::from$", {"core::convert::From", "core::convert::TryFrom", "core::convert::Into", "core::convert::TryInto"}),
+    (r"::contains$|::cmp$|::partial_cmp$|::min$|::max$|::sort|binary_search|::lt$|::le$|::gt$|::ge$|::is_sorted|::clamp$|::dedup", {"core::cmp::Ord", "core::cmp::PartialOrd", "core::cmp::PartialEq", "core::cmp::Eq"}),
+    (r"::eq$|::ne$|::position$|::rposition$|::starts_with$|::ends_with$", {"core::cmp::PartialEq", "core::cmp::Eq"}),
+    (r"::clone$|::cloned$|::to_owned$|::to_vec$|::clone_from$|::resize", {"core::clone::Clone"}),
+    (r"::hash$|HashMap|HashSet", {"core::hash::Hash", "core::cmp::PartialEq", "core::cmp::Eq"}),
+    (r"::default$|::unwrap_or_default$|::take$|mem::take", {"core::default::Default"}),
+    (r"::is_empty$|::len$|::iter$|::first$|::last$|::get$|::push$|::pop$|::as_slice$|::deref$|::as_ref$|::is_some$|::is_none$|::unwrap|::expect$|::new$|::peek$|::map$|::and_then$|::ok_or|::filter$", set()),
+]
+
+
 class CheckerBroken(Exception):
     """The checker itself cannot run (missing facts, toolchain...). Exit code 2, never a verdict."""
 
@@ -271,6 +287,11 @@ class Program:
             for a in j["adts"]:
                 a["crate"] = prefix
                 self.adts[a["id"]] = a
+            for a in j.get("foreign_enums", []):
+                a["crate"] = "(foreign)"
+                a.setdefault("unsafe_cell", [])
+                a.setdefault("ty_leaves", [])
+                self.adts.setdefault(a["id"], a)
             for s in j["statics"]:
                 s["crate"] = prefix
                 self.statics[s["id"]] = s
@@ -282,6 +303,7 @@ class Program:
                 self.unsafe.append(u)
         self._children = None
         self._cg = None
+        self._impl_index = None
 
     # -- lookups -------------------------------------------------------------------------------
 
@@ -391,6 +413,43 @@ class Program:
             res.append(callee["def"])
         return res
 
+    def callback_targets(self, callee):
+        """Workspace trait-impl methods a *third-party generic* callee may call back: when such a
+        callee is instantiated with a workspace type T (new_display::<T>, to_string, collect,
+        sort, ...), every trait impl method of T is a possible target (over-approximation)."""
+        if "indirect" in callee:
+            return []
+        crate = callee_crate(callee)
+        if crate in WS_ALL:
+            return []
+        if self._impl_index is None:
+            idx = collections.defaultdict(list)
+            for f in self.fns.values():
+                im = f.impl
+                if im and im.get("trait") and im.get("self_adt") and f.kind == "AssocFn":
+                    idx[im["self_adt"]].append(f.id)
+            self._impl_index = idx
+            self._display_all = [f.id for f in self.fns.values() if f.impl and f.impl.get("trait") in ("core::fmt::Display", "core::fmt::Debug") and f.kind == "AssocFn" and f.crate in WS_ALL]
+        res = []
+        name = (callee.get("resolved") or callee)["def"]
+        allowed = None
+        for rx, traits in CALLBACK_TRAITS:
+            if re.search(rx, name) or re.search(rx, callee["def"]):
+                allowed = traits
+                break
+        texts = list(callee.get("gargs", [])) + [callee.get("self_ty") or ""]
+        for g in texts:
+            base = g.replace("&", "").replace("mut ", "").strip()
+            base = base.split("<")[0]
+            if base in self._impl_index:
+                for fid in self._impl_index[base]:
+                    tr = self.fns[fid].impl.get("trait")
+                    if allowed is None or tr in allowed:
+                        res.append(fid)
+            elif "impl " in g and ("Display" in g or "Debug" in g):
+                res.extend(self._display_all)
+        return res
+
     def fn_refs(self, fn):
         """Function items and closures mentioned as values (callbacks) in a body."""
         res = []
@@ -425,6 +484,7 @@ class Program:
             out = set()
             for _, t in fn.calls():
                 out.update(self.call_targets(t["callee"]))
+                out.update(self.callback_targets(t["callee"]))
             for r in self.fn_refs(fn):
                 if isinstance(r, str):
                     out.add(r)
@@ -799,3 +859,83 @@ def load_known_findings():
         return []
     with open(p) as fh:
         return json.load(fh)["findings"]
+
+
+def call_sccs(prog, roots, crates):
+    """Non-trivial strongly connected components (recursion) of the workspace call graph
+    reachable from `roots`, closures folded into their enclosing function, macro-generated and
+    derived functions ignored. Edges: resolved calls, class-hierarchy targets of unresolved
+    trait calls, callbacks through third-party generics, function items used as values."""
+    reach, _ = prog.reachable(roots)
+    reach = {f for f in reach if prog.fns[f].crate in crates}
+
+    def root(f):
+        x = prog.fns[f]
+        guard = 0
+        while x.kind == "Closure" and x.parent in prog.fns and guard < 16:
+            x = prog.fns[x.parent]
+            guard += 1
+        return x.id
+
+    def skip(f):
+        x = prog.fns[f]
+        return x.from_expansion or (x.impl and x.impl.get("derived"))
+
+    g = collections.defaultdict(set)
+    for f in reach:
+        if skip(root(f)):
+            continue
+        fn = prog.fns[f]
+        out = set()
+        for _, t in fn.calls():
+            out.update(prog.call_targets(t["callee"]))
+            out.update(prog.callback_targets(t["callee"]))
+        for r in prog.fn_refs(fn):
+            if isinstance(r, str) and prog.fns[r].kind != "Closure":
+                out.add(r)
+        for h in out:
+            if h in reach and not skip(root(h)):
+                if root(h) == root(f) and prog.fns[h].kind == "Closure":
+                    continue  # calling one's own closure is not recursion
+                g[root(f)].add(root(h))
+    idx, low, st, on, comps, c = {}, {}, [], set(), [], [0]
+
+    def sc(v):
+        work = [(v, iter(sorted(g.get(v, ()))))]
+        idx[v] = low[v] = c[0]
+        c[0] += 1
+        st.append(v)
+        on.add(v)
+        while work:
+            node, it = work[-1]
+            adv = False
+            for w in it:
+                if w not in idx:
+                    idx[w] = low[w] = c[0]
+                    c[0] += 1
+                    st.append(w)
+                    on.add(w)
+                    work.append((w, iter(sorted(g.get(w, ())))))
+                    adv = True
+                    break
+                elif w in on:
+                    low[node] = min(low[node], idx[w])
+            if adv:
+                continue
+            work.pop()
+            if work:
+                low[work[-1][0]] = min(low[work[-1][0]], low[node])
+            if low[node] == idx[node]:
+                comp = []
+                while True:
+                    w = st.pop()
+                    on.discard(w)
+                    comp.append(w)
+                    if w == node:
+                        break
+                if len(comp) > 1 or node in g.get(node, ()):
+                    comps.append(sorted(comp))
+    for v in sorted(g):
+        if v not in idx:
+            sc(v)
+    return comps, len(reach)
